@@ -805,7 +805,15 @@ def _apply_bound(E, c, st, env, module, where):
     pre.snap = None
     # 3. frame + result
     if c.modifies:
-        _havoc_paths(E, st, c.modifies)
+        mods = c.modifies
+        try:
+            kwname = loader.find_function(c.target).node.args.kwarg
+        except KeyError:
+            kwname = None
+        if kwname is not None and not isinstance(mods, dict) and kwname.arg in mods:
+            # the callee's own **kwargs dict is created by the call and invisible to the caller: nothing to havoc
+            mods = [m for m in mods if m != kwname.arg]
+        _havoc_paths(E, st, mods)
     for path, expr in c.sets.items():
         v = eval_single(E, expr, st)
         _store_path(E, st, path, v)
@@ -1030,13 +1038,14 @@ def _havoc_paths(E, st, paths):
                 if typ is not None and len(split_union(typ)) != 1:
                     typ = None
         cur = h.fields.get(fld)
-        if typ is None and isinstance(cur, LazyUnion):
+        if typ is None and isinstance(cur, LazyUnion) and not (cc is not None and any(isinstance(v, Ref) for _tn, v in cur.alts)):
             # union-typed field: havoc into a fresh lazily resolved union of the same alternatives
+            # (an object-valued alternative of a declared field is rebuilt from the class contract instead: next branch)
             alts2 = []
             for tn, v in cur.alts:
                 alts2.append((tn, v if (v is ABSENT or v is None) else havoc_value(E, v, fld, st)))
             h.fields[fld] = make_lazy(E, st, alts2, fld)
-        elif typ is None and (cur is None or isinstance(cur, Ref)) and cc is not None and (cc.fields.get(fld) or cc.fields.get(fld + '?')):
+        elif typ is None and (cur is None or isinstance(cur, (Ref, LazyUnion))) and cc is not None and (cc.fields.get(fld) or cc.fields.get(fld + '?')):
             ft = cc.fields.get(fld) or cc.fields.get(fld + '?')
             alts2 = [((o if isinstance(o, str) else repr(o[1])), fresh_typed(E, st, o, fld)) for o in split_union(ft)]
             h.fields[fld] = make_lazy(E, st, alts2, fld)
